@@ -1,7 +1,7 @@
 (* List facts for the time-dependency invariant: "a occurs before b" in a store, under appending at the back and
    removing a third element; the job at the release position of an ordered buffer is not behind another one. *)
 From Coq Require Import List Arith Bool Lia.
-From JSL Require Import Base.Res Base.ListX SM.Types SM.Util SMP.ListLemmas.
+From JSL Require Import Base.Res Base.ListX SM.Types SM.Util SM.Inv SMP.ListLemmas.
 Import ListNotations.
 
 Definition before (a b : nat) (l : list nat) : Prop := exists l1 l2 l3, l = l1 ++ a :: l2 ++ b :: l3.
@@ -180,3 +180,25 @@ Proof.
     replace (length (h :: t) - 1) with p in Hnl by (simpl in *; lia). congruence.
   - destruct p; [|discriminate]. apply index_of_nth in Hp. simpl in Hp. congruence.
 Qed.
+
+(* ---------- the boolean reading ---------- *)
+Lemma before_before_b a b l : NoDup l -> before a b l -> before_b a b l = true.
+Proof.
+  intros N [l1 [l2 [l3 ->]]]. unfold before_b.
+  assert (Ha : ~ In a l1).
+  { intros Hi. apply NoDup_remove_2 in N. apply N. apply in_app_iff. left. exact Hi. }
+  assert (Hb1 : ~ In b l1).
+  { intros Hi. replace (l1 ++ a :: l2 ++ b :: l3) with ((l1 ++ a :: l2) ++ b :: l3) in N by (rewrite <- app_assoc; reflexivity).
+    apply NoDup_remove_2 in N. apply N. apply in_app_iff. left. apply in_app_iff. left. exact Hi. }
+  assert (Hab : a <> b).
+  { apply (before_neq a b (l1 ++ a :: l2 ++ b :: l3) N). exists l1, l2, l3. reflexivity. }
+  assert (Hb2 : ~ In b l2).
+  { intros Hi. replace (l1 ++ a :: l2 ++ b :: l3) with ((l1 ++ a :: l2) ++ b :: l3) in N by (rewrite <- app_assoc; reflexivity).
+    apply NoDup_remove_2 in N. apply N. apply in_app_iff. left. apply in_app_iff. right. right. exact Hi. }
+  rewrite (index_of_app_notin a l1 _ Ha). rewrite index_of_head. simpl.
+  rewrite (index_of_app_notin b l1 _ Hb1). simpl. destruct (Nat.eqb_spec a b) as [E|_]; [contradiction|].
+  rewrite (index_of_app_notin b l2 _ Hb2). rewrite index_of_head. simpl. apply Nat.ltb_lt. lia.
+Qed.
+
+Lemma rel_ok_rel_ok_b ty l k j : NoDup l -> rel_ok ty l k j -> rel_ok_b ty l k j = true.
+Proof. destruct ty; simpl; intros N H; try (apply before_before_b; auto); destruct H. Qed.
